@@ -72,6 +72,15 @@ func progNontrivial(prog []elem) bool {
 	return false
 }
 
+func hasZeroSize(prog []elem) bool {
+	for _, e := range prog {
+		if e.zeroSz {
+			return true
+		}
+	}
+	return false
+}
+
 func hasBadCfg(prog []elem) bool {
 	for _, e := range prog {
 		if strings.Contains(e.dop, "LBad") {
@@ -101,7 +110,7 @@ func (g *gen) judgeDes(input []byte, prog []elem, o desObs, what string) {
 		g.fail(map[string]any{"sig": "des-consumed-gt-len", "input": hexs(input), "ops": dops, "off": o.off})
 	case !o.panicked && o.alloc > allocBound(len(input)):
 		g.fail(map[string]any{"sig": "des-alloc", "input": hexs(input), "ops": dops, "alloc": o.alloc, "bound": allocBound(len(input))})
-	case o.seqIters > len(input)+1:
+	case o.seqIters > len(input)+1 && !hasZeroSize(prog): // zero-size items are the known finding D02d (directed case)
 		g.fail(map[string]any{"sig": "des-iterations", "input": hexs(input), "ops": dops, "iterations": o.seqIters})
 	}
 }
@@ -119,6 +128,14 @@ func (g *gen) mutations(input []byte, prog []elem) map[string][]byte {
 		b, _, _ := serialize([]elem{e})
 		pos += len(b)
 	}
+	out["garbage-tail"] = append(exact(input), rbytes(r, 1+r.Intn(3))...)
+	for _, e := range prog {
+		if e.zeroSz {
+			// known finding D02d: with zero-size items any corrupted count is iterated in full; steer away from the
+			// pattern (the directed case reproduces it) so that it cannot mask other failures
+			return out
+		}
+	}
 	if len(input) > 0 {
 		out["trunc-rand"] = input[:r.Intn(len(input))]
 		out["trunc-last"] = input[:len(input)-1]
@@ -126,7 +143,6 @@ func (g *gen) mutations(input []byte, prog []elem) map[string][]byte {
 		fl[r.Intn(len(fl))] ^= 1 << uint(r.Intn(8))
 		out["bitflip"] = fl
 	}
-	out["garbage-tail"] = append(exact(input), rbytes(r, 1+r.Intn(3))...)
 	for i, e := range prog {
 		if len(e.prefix) == 0 || e.zeroSz || e.prefix[0] == 0 || offs[i]+e.prefix[0] > len(input) {
 			continue
@@ -594,7 +610,7 @@ func (g *gen) streamPair(o wop, kinds []string) {
 		g.st.Count("write.err")
 		return
 	}
-	written := out[len(pre):]
+	written := out[len(pre) : len(out)-1] // without the sentinel
 	tail := rbytes(r, r.Intn(4))
 	data := append(exact(written), tail...)
 	for _, kind := range kinds {
